@@ -43,14 +43,36 @@ package httpserver
 //   * if the validator-side clock moves across one of these edges between the tap
 //     before the Validator and the end of the handler, both answers are accepted.
 //   * rejection status: 400 or 401, whichever method rejected.
-//   * query strings never contain a space ('+' vs %20 in the canonical query is
-//     where Signature V4 and Go's url.Values.Encode differ), never ';', no
-//     duplicate-slash or dot path segments, no lower-case percent escapes; only
-//     queries whose sort order is the same before and after URI-encoding.
+//   * query strings never contain ';', paths no duplicate-slash or dot segments
+//     and no lower-case percent escapes; only queries whose sort order is the
+//     same before and after URI-encoding (for presigned requests including the
+//     signature parameters). A space in the query is canonicalised as %20
+//     (Signature V4, which the reference names as the compatible scheme); the
+//     wire form of the query (upper/lower-case escapes, minimal escaping, '+'
+//     for a space, "name" for "name=") never matters.
 //   * the signed-header list always contains host and the date header; the
-//     Authorization, User-Agent, Content-Length headers are never signed.
+//     Authorization and User-Agent headers are never signed, Content-Length is
+//     signed when the request has one and the client signs every header.
 //   * methods that need the same Authorization header are not combined (jwt with
-//     basic/signature only with the token in the cookie; signature with basic never).
+//     basic/signature only with the token in the cookie). signature+basicAuth is
+//     generated with presigned URLs only (the signature is then in the query, the
+//     Authorization header carries the Basic credentials): both answers are
+//     accepted for a request valid for both (Signature V4 services refuse or
+//     accept two mechanisms at once), a defect in either still requires rejection.
+//   * both answers, recorded by probes only: a request signed with the spec's
+//     accessKeyId/accessKeySecret pair (not said to be a known key); a literal
+//     section without signingKeyPrefix (reference: "default is ME", schema:
+//     optional), whichever prefix the client uses; "basic"/"BASIC"/two spaces
+//     after the scheme, unpadded base64; "bearer"/"BEARER"/two spaces; a client
+//     signing UNSIGNED-PAYLOAD over an empty body; a signed request whose path the
+//     server's own rewriteTarget rule changes before the pipeline runs; requests
+//     handled by a generation whose first read of the credential store failed
+//     (fault, outside the quantifier).
+//   * a signature section without accessKeys (only accessKeyId/accessKeySecret)
+//     has no known key: everything must be rejected with invalid + 401/400.
+//   * stored passwords: {SHA}, apr1-MD5, bcrypt, {SSHA} and plain text as written
+//     by htpasswd(1); etcd entries with or without "username"; malformed entries
+//     and credential lists under other prefixes must not matter.
 //   * excludeBody: true means the body is documented as not covered: body
 //     corruption is then expected to be accepted.
 //   * stream mode (clientMaxBodySize -1) is outside the quantifier ("body already
@@ -518,7 +540,6 @@ func c06GenOp(rng *sim.Rand, cfg *c06Cfg) c06Op {
 		}
 		op.CookiePos = rng.PickStr("", "", "only", "first", "last")
 		op.OtherCookies = rng.Bool(0.4)
-		op.JWTExtra = rng.Bool(0.3)
 		defects = append(defects, "jwt-missing", "jwt-alg", "jwt-alg", "jwt-secret", "jwt-none", "jwt-sig-byte", "jwt-payload-byte", "jwt-expired", "jwt-notyet", "jwt-alg-foreign", "jwt-bearer-lower")
 	}
 	if s := cfg.Sig; s != nil && len(s.Keys) > 0 {
@@ -762,9 +783,13 @@ func c06Gen(rng *sim.Rand, tier string) interface{} {
 		}
 		sc.Clients = append(sc.Clients, cl)
 	}
+	// one issuer per scenario: all its tokens have the same set of claims (so
+	// that the same token string can reach the Validator more than once)
+	jwtExtra := rng.Bool(0.3)
 	for ci := range sc.Clients {
 		for oi := range sc.Clients[ci].Ops {
 			sc.Clients[ci].Ops[oi].Follow = rng.Bool(0.7)
+			sc.Clients[ci].Ops[oi].JWTExtra = jwtExtra && sc.Clients[ci].Ops[oi].JWTMode != ""
 		}
 	}
 	c06GenEvents(rng, sc)
@@ -1128,7 +1153,7 @@ func (c *c06Chain) issue(id string, op0 *c06Op) *c06Info {
 			info.mut = op.Mut
 		}
 		if op.JWTExtra {
-			claims = append(claims, [2]string{"iss", `"https://issuer.example/"`}, [2]string{"aud", `["c06","other"]`}, [2]string{"jti", fmt.Sprintf("%q", id)}, [2]string{"scope", `"read write"`})
+			claims = append(claims, [2]string{"iss", `"https://issuer.example/"`}, [2]string{"aud", `["c06","other"]`}, [2]string{"jti", `"c06-token"`}, [2]string{"scope", `"read write"`})
 			extraHead = `,"kid":"key-1"`
 		}
 		tok := c06JWTx(alg, signAlg, extraHead, sec, claims)
@@ -2598,6 +2623,47 @@ func c06Shrink(sci interface{}) []interface{} {
 			}
 			return ok
 		},
+		func(c *c06Cfg) bool { ok := c.Rewrite; c.Rewrite = false; return ok },
+		func(c *c06Cfg) bool {
+			ok := c.Sig != nil && (c.Sig.TTLFracMs != 0 || c.Sig.TTLForm != "")
+			if ok {
+				c.Sig.TTLFracMs, c.Sig.TTLForm = 0, ""
+			}
+			return ok
+		},
+		func(c *c06Cfg) bool {
+			ok := c.Sig != nil && c.Sig.SignOpts
+			if ok {
+				c.Sig.SignOpts = false
+			}
+			return ok
+		},
+		func(c *c06Cfg) bool {
+			ok := c.Sig != nil && c.Sig.Cred[0] != "" && !c.Sig.NoMap
+			if ok {
+				c.Sig.Cred = [2]string{}
+			}
+			return ok
+		},
+		func(c *c06Cfg) bool {
+			ok := c.Basic != nil && (c.Basic.Junk != 0 || c.Basic.Prefix != "")
+			if ok {
+				c.Basic.Junk, c.Basic.Prefix = 0, ""
+			}
+			return ok
+		},
+		func(c *c06Cfg) bool {
+			ok := false
+			if c.Basic != nil {
+				for i := range c.Basic.Users {
+					u := &c.Basic.Users[i]
+					if u.KeyOnly || (u.Store != "sha" && u.Store != "plain") {
+						u.KeyOnly, u.Store, ok = false, "sha", true
+					}
+				}
+			}
+			return ok
+		},
 	}
 	for _, e := range cfgEdits {
 		n := clone()
@@ -2636,6 +2702,21 @@ func c06Shrink(sci interface{}) []interface{} {
 			return ok
 		},
 		func(o *c06Op) bool { ok := o.SendSha; o.SendSha = false; return ok },
+		func(o *c06Op) bool {
+			ok := o.QStyle != "" || o.QBare
+			o.QStyle, o.QBare = "", false
+			return ok
+		},
+		func(o *c06Op) bool {
+			ok := o.SignCL || o.AuthFmt != "" || o.Expect
+			o.SignCL, o.AuthFmt, o.Expect = false, "", false
+			return ok
+		},
+		func(o *c06Op) bool {
+			ok := o.CookiePos != "" || o.JWTExtra || o.OtherCookies
+			o.CookiePos, o.JWTExtra, o.OtherCookies = "", false, false
+			return ok
+		},
 		func(o *c06Op) bool { ok := o.MutN != 0; o.MutN = 0; return ok },
 	}
 	for ci := range sc.Clients {
@@ -2654,16 +2735,19 @@ func c06Shrink(sci interface{}) []interface{} {
 func TestVerifC06(t *testing.T) {
 	hdrv.Main(t, &hdrv.Harness{
 		ID: "C06", Gen: c06Gen, New: func() interface{} { return &c06Scenario{} }, Exec: c06Exec, Shrink: c06Shrink, MaxSteps: 400000,
-		Rule: "scenario = Validator configuration (header rules / jwt HS256-512 with cookie or bearer / signature with 1-3 access keys, ttl, excludeBody, default or AWS literals / basicAuth users incl. ':' and non-ASCII; combinations) + wire knobs (segmentation, latency, chunked bodies up to 64 KiB) + 1-3 raw clients x 1-4 requests, each issued by the independent issuer on a skewed clock, delivered at a drawn instant (often exactly on/next to exp, nbf, date±ttl, date+expires) and in ~40% of the cases with exactly one defect (wrong alg/secret/key, expired/not-yet-valid, or one covered element corrupted after signing: method, path, query, signed header, host, body, signature, date, scope, key id, token byte, password byte); " +
+		Rule: "scenario = Validator configuration (header rules with names in any case and optionally an allowed empty value / jwt HS256-512 with cookie or bearer, secret hex in either case / signature with 1-3 access keys, ttl (whole or fractional seconds, written as Ns, Nms or Go duration), excludeBody, default or AWS literals (optionally without signingKeyPrefix), optional accessKeyId/accessKeySecret pair (rarely without accessKeys), optional ignoredHeaders+headerHoisting / basicAuth users incl. ':' and non-ASCII stored as {SHA}, apr1, bcrypt, {SSHA} or plain, with or without username in the etcd entry, etcdPrefix plain / with leading slash / defaulted, malformed entries and a decoy list under another prefix; combinations incl. presigned URL + Basic) + server knobs (stream mode, a rewriteTarget rule) + wire knobs (segmentation, latency, chunked bodies up to 64 KiB, Expect: 100-continue) + 1-3 raw clients x 1-6 requests (GET/POST/PUT/DELETE/PATCH/OPTIONS/HEAD, host names incl. IPv6 literals, queries incl. spaces, PHP-style and non-ASCII names, four wire encodings of the query, signed Content-Length, Authorization parameters with or without spaces), each issued by the independent issuer on a skewed clock, delivered at a drawn instant (often exactly on/next to exp, nbf, date±ttl, date+expires) and in ~40% of the cases with exactly one defect (wrong alg/secret/key, expired/not-yet-valid, or one covered element corrupted after signing: method, path, query, signed header, host, body, signature, date, scope, key id, token byte, password byte); " +
 			"0-3 admin events per run: pipeline generation change via Pipeline.Inherit (spec same / signature secret of one key id / jwt secret / jwt alg / ttl changed) and basicAuth credential-store pushes (remove/replace/add) through the syncer, clients optionally following the configuration in force; " +
 			"non-trivial = at least one request with a definite verdict was let through and one rejected in the same run; distinct = distinct (methods configured, per-request credential kinds/mutation/target/verdict/outcome) signatures",
 		Real: []string{"net/http.Server + pkg/object/httpserver mux (serveHTTP, FetchPayload)", "pkg/object/pipeline (flow, jumpIf)", "pkg/filters/validator (Validator, JWTValidator, BasicAuthValidator in ETCD mode)",
 			"pkg/util/signer (Verify)", "pkg/protocols/httpprot (+httpheader validator)", "golang-jwt, go-htpasswd as linked"},
 		Stub: []string{"network: simnet", "clients: raw HTTP/1.1 writer + strict response parser", "issuer: own JWT writer, own Signature-V4 signer, own Basic encoder (harness)",
-			"basicAuth credential store: clustertest.MockedCluster (ETCD mode; FILE mode needs inotify and is not exercised)", "recording taps before/after the Validator (harness filter kind C06Tap)"},
+			"basicAuth credential store: clustertest.MockedCluster (ETCD mode; FILE mode needs inotify and is not exercised); its syncer delivers only the keys under the prefix the watcher asked for", "recording taps before/after the Validator (harness filter kind C06Tap)"},
 		Assumptions: []string{"edges accept both answers: exp<=now<exp+1s, now==nbf, iat in the validator's future, |now-date|==ttl, now-date==expires, and any edge crossed while the request was inside the handler",
-			"rejection status may be 400 or 401", "queries contain no space or ';', paths no dot/empty segments or lower-case escapes; only queries whose order is the same before and after URI-encoding",
-			"host and the date header are always signed; Authorization/User-Agent/Content-Length never", "methods needing the same Authorization header are not combined; oauth2 is not exercised",
+			"rejection status may be 400 or 401", "queries contain no ';', paths no dot/empty segments or lower-case escapes; only queries whose order is the same before and after URI-encoding",
+			"host and the date header are always signed; Authorization/User-Agent never; Content-Length when the client signs every header", "methods needing the same Authorization header are not combined (signature+basicAuth only as presigned URL + Basic header, both answers accepted when valid for both); oauth2 is not exercised",
+			"a space in the query is canonicalised as %20 (Signature V4); the wire encoding of the query never matters",
+			"both answers (probes only): request signed with the spec's accessKeyId/accessKeySecret pair; literal without signingKeyPrefix; scheme word in another case or followed by two spaces, unpadded base64; UNSIGNED-PAYLOAD signed over an empty body; signed path rewritten by the server's rewriteTarget; generation whose first read of the credential store failed",
+			"a signature section without accessKeys knows no key: every request must be rejected with invalid + 401/400",
 			"excludeBody: body corruption is expected to be accepted", "stream mode (clientMaxBodySize -1) only through probes",
 			"credential-store change: from the beginning of a push until the system was quiescent after it both stores are valid references; a generation closed while a request is inside it may have stopped following the store",
 			"a request is judged by the Validator configuration of the pipeline generation whose handler the mux obtained for it", "the front server has no idle timeout (clients replace connections idle for 30 s themselves)"},
